@@ -868,6 +868,13 @@ pub fn generate(r: &mut Rng, opts: &BTreeMap<String, String>, sess: &mut Session
         let m = maps[r.below(maps.len() as u64) as usize].clone();
         out.count("diff_map_level");
         run_cmd(&format!("diff0 r0 {} {} {}", h1, h2, show_exid(&m)), sess, out, &mut ctx);
+        // … and of one list object: compared with the Lean `listDiff` + index accounting + `PatchBuilder` merging
+        let lists: Vec<ObjId> = objs.iter().filter(|(_, t)| *t == ObjType::List).map(|(o, _)| o.clone()).collect();
+        if !lists.is_empty() {
+            let l = lists[r.below(lists.len() as u64) as usize].clone();
+            out.count("diff_list_level");
+            run_cmd(&format!("diff0 r0 {} {} {}", h1, h2, show_exid(&l)), sess, out, &mut ctx);
+        }
     }
     let _ = parse_enc;
 }
